@@ -193,7 +193,14 @@ func runSysPlug(x *X) {
 		if n < 0 {
 			n = 0
 		}
-		m.compressible = c.Intn(3, "incompressible") != 0
+		// thorough tier: now and then a body around the gzip plugin's 10 MB buffering cap
+		capCase := false
+		if x.Tier == "thorough" && wantGzip && !wantSize && i == 0 && c.Intn(25, "cap-case") == 0 {
+			n = 10*1024*1024 - 2 + c.Intn(5, "cap-delta")
+			capCase = true
+			x.Probe("around-10MB-cap")
+		}
+		m.compressible = c.Intn(3, "incompressible") != 0 || capCase
 		m.plain = sizedBody(x, n, m.compressible, "resp")
 		rs.body = m.plain
 		if wantGzip && n > 0 && c.Intn(6, "pre-encoded") == 0 {
@@ -288,7 +295,7 @@ func runSysPlug(x *X) {
 		}
 		// ---------------- response side ---------------------------------------
 		respOver := wantSize && len(rs.body) > L2 && ex.method != "HEAD"
-		gzEligible := wantGzip && hasToken(m.ae) && m.preEncoded == "" && len(rs.body) >= minSize && ex.method != "HEAD"
+		gzEligible := wantGzip && hasToken(m.ae) && m.preEncoded == "" && len(rs.body) >= minSize && len(rs.body) <= 10<<20 && ex.method != "HEAD"
 		// the gzip wrapper is only installed for requests that list gzip; when it is, sizes
 		// seen by the client are encoded sizes and belong to C15's oracle, not C14's
 		gzipActs := wantGzip && hasToken(m.ae)
